@@ -209,6 +209,14 @@ Definition rt_match (neg : bool) (l : list rng) (c : N) : bool :=
   let hit := if c <? 256 then existsb (fun p => in_pair c p && (c <? 256)) m else existsb (in_pair c) n in
   if neg then negb hit else hit.
 
+(** doCreateMap leaves fNonMapIndex = index of the first range that starts at or reaches above 255 (in pairs: the
+    number of pairs walked before it) and RangeToken::match scans fRanges from that index for characters >= 256.
+    The map is only valid for the array it was built from: [rt_match_at (nonmap_index lb) l c] is match() on ranges
+    [l] with a map built when the ranges were [lb] (createMap called before a later compactRanges). *)
+Definition nonmap_index (l : list rng) : nat := (length l - length (snd (map_split l)))%nat.
+Definition rt_match_at (idx : nat) (l : list rng) (c : N) : bool :=
+  if c <? 256 then rmem l c else existsb (in_pair c) (skipn idx l).
+
 (** the set denoted by a range list, and the ordering invariant established by sort + compact:
     strictly increasing, disjoint and non-adjacent *)
 Fixpoint compact_ok (l : list rng) : bool :=
